@@ -4,6 +4,59 @@ From Verif Require Import Lib.Base Lib.Utf8 Lib.GoStr Model.Cfg Gen.Tables Model
 
 Set Implicit Arguments.
 
+(* ---------- one run: a property of the recorded errors that handleError preserves ---------- *)
+Section RunEsc.
+  Variable idna : str -> str * bool.
+  Variable c : cfg.
+  Variable EV : list verr -> Prop.
+  Hypothesis H_ev : forall u t f, EV (u_verrs u) -> EV (u_verrs (fst (handleError c u t f))).
+
+  Definition esc_result (r : result) : Prop :=
+    match r with
+    | RUrl u => EV (u_verrs u)
+    | RNilNil u => EV (u_verrs u)
+    | _ => True
+    end.
+
+  Let vr : list verr -> list verr -> Prop := fun _ v2 => EV v2.
+  Let ep : url -> verr -> Prop := fun _ _ => True.
+  Let ev : list verr -> Prop := fun _ => True.
+
+  Lemma esc_EP : forall u t f e, snd (handleError c u t f) = Some e -> ep (fst (handleError c u t f)) e.
+  Proof. intros; exact I. Qed.
+  Lemma esc_he : forall u1 u2 t f, UR vr u1 u2 ->
+    match snd (handleError c u1 t f), snd (handleError c u2 t f) with
+    | None, None => vr (u_verrs (fst (handleError c u1 t f))) (u_verrs (fst (handleError c u2 t f)))
+    | Some _, Some _ => True
+    | Some _, None => False /\ ev (u_verrs (fst (handleError c u2 t f)))
+    | None, Some _ => False
+    end.
+  Proof.
+    intros u1 u2 t f [_ HV]. rewrite !handleError_snd.
+    destruct (f || c_fail c); [exact I|]. apply H_ev, HV.
+  Qed.
+  Lemma esc_ev : forall u t f, ev (u_verrs u) -> ev (u_verrs (fst (handleError c u t f))).
+  Proof. intros; exact I. Qed.
+
+  Lemma step_esc inp base ov m :
+    EV (u_verrs (m_url m)) -> esc_out EV (step idna c inp base ov m).
+  Proof.
+    intros HE.
+    assert (HM : MR vr m m) by (repeat split; try reflexivity; exact HE).
+    pose proof (@step_rel idna c c (cagree_refl c) vr ep False ev esc_EP esc_he esc_ev inp base ov m m HM) as HO.
+    destruct (step idna c inp base ov m) as [m'|u|u e|u|]; cbn in HO |- *; try exact I; try apply HO.
+  Qed.
+
+  Lemma run_esc inp base ov fuel : forall m,
+    EV (u_verrs (m_url m)) -> esc_result (run idna c inp base ov fuel m).
+  Proof.
+    induction fuel as [|fuel IH]; intros m HE; [exact I|].
+    cbn [run]. pose proof (step_esc inp base ov m HE) as HS.
+    destruct (step idna c inp base ov m) as [m'|u|u e|u|]; cbn in HS |- *; try exact I; try exact HS.
+    destruct (m_eof m'); [exact HS|apply IH, HS].
+  Qed.
+End RunEsc.
+
 Section RunSim.
   Variable idna : str -> str * bool.
   Variables c1 c2 : cfg.
@@ -11,26 +64,30 @@ Section RunSim.
   Variable VR : list verr -> list verr -> Prop.
   Variable EP : url -> verr -> Prop.
   Variable EANY : Prop.
+  Variable EV : list verr -> Prop.
 
   Notation UR := (UR VR).
   Notation MR := (MR VR).
-  Notation OR := (OR VR EP EANY).
+  Notation OR := (OR VR EP EANY EV).
+  Notation esc_result := (esc_result EV).
 
   Hypothesis H_EP : forall u t f e, snd (handleError c1 u t f) = Some e -> EP (fst (handleError c1 u t f)) e.
   Hypothesis H_he : forall u1 u2 t f, UR u1 u2 ->
     match snd (handleError c1 u1 t f), snd (handleError c2 u2 t f) with
     | None, None => VR (u_verrs (fst (handleError c1 u1 t f))) (u_verrs (fst (handleError c2 u2 t f)))
     | Some _, Some _ => True
-    | Some _, None => EANY
+    | Some _, None => EANY /\ EV (u_verrs (fst (handleError c2 u2 t f)))
     | None, Some _ => False
     end.
+  Hypothesis H_ev : forall u t f, EV (u_verrs u) -> EV (u_verrs (fst (handleError c2 u t f))).
 
   (* ---------- the loop, BasicParser and the public entry points ---------- *)
   Definition RESR (r1 r2 : result) : Prop :=
     match r1 with
     | RUrl u1 => match r2 with RUrl u2 => UR u1 u2 | _ => False end
     | RErr u1 e1 =>
-        EP u1 e1 /\ (EANY \/ match r2 with RErr u2 e2 => eqv u1 u2 /\ e1 = e2 | _ => False end)
+        EP u1 e1 /\
+        ((EANY /\ esc_result r2) \/ match r2 with RErr u2 e2 => eqv u1 u2 /\ e1 = e2 | _ => False end)
     | RNilNil u1 => match r2 with RNilNil u2 => UR u1 u2 | _ => False end
     | RPanic => r2 = RPanic
     | ROutOfFuel => r2 = ROutOfFuel
@@ -40,18 +97,27 @@ Section RunSim.
     RESR (run idna c1 inp base ov fuel m1) (run idna c2 inp base ov fuel m2).
   Proof.
     induction fuel as [|fuel IH]; intros m1 m2 HM; [reflexivity|].
-    cbn [run]. pose proof (@step_rel idna c1 c2 Hag VR EP EANY H_EP H_he inp base ov m1 m2 HM) as HO.
-    destruct (step idna c1 inp base ov m1) as [m1'|v1|v1 e1|v1|];
-      destruct (step idna c2 inp base ov m2) as [m2'|v2|v2 e2|v2|]; cbn in HO;
-      try contradiction; try discriminate; try exact HO; try reflexivity;
-      try (destruct HO as [HE [HA|[]]]; split; [exact HE|left; exact HA]).
-    pose proof HO as (_&_&E3&_&_&_&_&HU). rewrite <- E3.
-    destruct (m_eof m1'); [exact HU|apply IH, HO].
+    cbn [run].
+    pose proof (@step_rel idna c1 c2 Hag VR EP EANY EV H_EP H_he H_ev inp base ov m1 m2 HM) as HO.
+    destruct (step idna c1 inp base ov m1) as [m1'|v1|v1 e1|v1|].
+    - destruct (step idna c2 inp base ov m2) as [m2'|v2|v2 e2|v2|]; cbn in HO; try contradiction.
+      pose proof HO as (_&_&E3&_&_&_&_&HU). rewrite <- E3.
+      destruct (m_eof m1'); [exact HU|apply IH, HO].
+    - destruct (step idna c2 inp base ov m2) as [m2'|v2|v2 e2|v2|]; cbn in HO; try contradiction. exact HO.
+    - destruct HO as [HE [[HA HS]|HX]].
+      + split; [exact HE|]. left. split; [exact HA|].
+        destruct (step idna c2 inp base ov m2) as [m2'|v2|v2 e2|v2|]; cbn in HS |- *; try exact I; try exact HS.
+        destruct (m_eof m2'); [exact HS|]. apply (@run_esc idna c2 EV H_ev), HS.
+      + destruct (step idna c2 inp base ov m2) as [m2'|v2|v2 e2|v2|]; try contradiction.
+        split; [exact HE|right; exact HX].
+    - destruct (step idna c2 inp base ov m2) as [m2'|v2|v2 e2|v2|]; cbn in HO; try contradiction. exact HO.
+    - cbn in HO. rewrite HO. reflexivity.
   Qed.
 
   Lemma he_rel u1 u2 t f : UR u1 u2 ->
     match handleError c1 u1 t f, handleError c2 u2 t f with
-    | (u1', Some e1), (u2', o2) => EP u1' e1 /\ (EANY \/ (o2 = Some e1 /\ eqv u1' u2'))
+    | (u1', Some e1), (u2', o2) =>
+        EP u1' e1 /\ ((EANY /\ o2 = None /\ EV (u_verrs u2')) \/ (o2 = Some e1 /\ eqv u1' u2'))
     | (u1', None), (u2', None) => UR u1' u2'
     | (_, None), (_, Some _) => False
     end.
@@ -68,7 +134,7 @@ Section RunSim.
     - split; [apply He; reflexivity|]. right. split; [|exact Hq].
       destruct (f || c_fail c1), (f || c_fail c2); try discriminate.
       inversion S1; inversion S2; subst. f_equal. symmetry. apply mkerr_eqv, (UR_eqv HU).
-    - split; [apply He; reflexivity|]. left; exact Hh.
+    - split; [apply He; reflexivity|]. left. destruct Hh as [HA HV]. auto.
     - contradiction.
     - split; assumption.
   Qed.
@@ -81,6 +147,9 @@ Section RunSim.
     | _, _ => False
     end.
 
+  Lemma EV_set_input u x : EV (u_verrs u) -> EV (u_verrs (set_input u x)).
+  Proof. intros H; exact H. Qed.
+
   Theorem BasicParser_rel urlOrRef b1 b2 o1 o2 ov :
     option_map clone b1 = option_map clone b2 -> U0R o1 o2 ->
     RESR (BasicParser idna c1 urlOrRef b1 o1 ov) (BasicParser idna c2 urlOrRef b2 o2 ov).
@@ -92,8 +161,32 @@ Section RunSim.
            (run idna c2 inp (option_map clone b2) ov fuel
               (mk (match ov with Some s => s | None => SchemeStart end) (-1)%Z false [] false false false u2))).
     { intros inp fuel u1 u2 HU. apply run_rel. repeat split; try reflexivity; apply HU. }
+    assert (KE : forall inp fuel u2, EV (u_verrs u2) ->
+      esc_result (run idna c2 inp (option_map clone b2) ov fuel
+              (mk (match ov with Some s => s | None => SchemeStart end) (-1)%Z false [] false false false u2))).
+    { intros inp fuel u2 HE. apply (@run_esc idna c2 EV H_ev). exact HE. }
     assert (UI : forall u1 u2 x, UR u1 u2 -> UR (set_input u1 x) (set_input u2 x)).
     { intros u1 u2 x [HA HV]. split; [apply eqv_set_input, HA|exact HV]. }
+    assert (STE : forall u2, EV (u_verrs u2) ->
+      esc_result
+           (let '(i, changed) := remove_tabnl (u_input u2) in
+            if changed then
+              match handleError c2 u2 InvalidURLUnit false with
+              | (u', Some e) => RErr u' e
+              | (u', None) =>
+                  run idna c2 (decode (u_input (set_input u' i))) (option_map clone b2) ov
+                    (fuel_of (length (decode (u_input (set_input u' i)))))
+                    (mk (match ov with Some s => s | None => SchemeStart end) (-1)%Z false [] false false false
+                        (set_input u' i))
+              end
+            else run idna c2 (decode (u_input u2)) (option_map clone b2) ov
+                   (fuel_of (length (decode (u_input u2))))
+                   (mk (match ov with Some s => s | None => SchemeStart end) (-1)%Z false [] false false false u2))).
+    { intros u2 HE. destruct (remove_tabnl (u_input u2)) as [i changed].
+      destruct changed; [|apply KE, HE].
+      pose proof (H_ev _ InvalidURLUnit false HE) as HH.
+      destruct (handleError c2 u2 InvalidURLUnit false) as [u2' [e|]]; [exact I|].
+      apply KE. exact HH. }
     assert (ST : forall u1 u2, UR u1 u2 ->
       RESR (let '(i, changed) := remove_tabnl (u_input u1) in
             if changed then
@@ -128,7 +221,9 @@ Section RunSim.
       pose proof (he_rel InvalidURLUnit false HU) as HH.
       destruct (handleError c1 u1 InvalidURLUnit false) as [u1' [e1|]],
                (handleError c2 u2 InvalidURLUnit false) as [u2' x2].
-      - destruct HH as [HE [HA|[-> HQ]]]; (split; [exact HE|]); [left; exact HA|right; split; [exact HQ|reflexivity]].
+      - destruct HH as [HE [(HA & -> & HV)|[-> HQ]]]; (split; [exact HE|]).
+        + left. split; [exact HA|]. apply KE. exact HV.
+        + right; split; [exact HQ|reflexivity].
       - destruct x2; [contradiction|]. apply K, UI, HH. }
     destruct o1 as [u1|], o2 as [u2|]; cbn in H0; try contradiction.
     - apply ST, UI, H0.
@@ -138,14 +233,19 @@ Section RunSim.
       pose proof (he_rel InvalidURLUnit false HE) as HH.
       destruct (handleError c1 (empty_url urlOrRef) InvalidURLUnit false) as [u1' [e1|]],
                (handleError c2 (empty_url urlOrRef) InvalidURLUnit false) as [u2' x2].
-      + destruct HH as [HE' [HA|[-> HQ]]]; (split; [exact HE'|]); [left; exact HA|right; split; [exact HQ|reflexivity]].
+      + destruct HH as [HE' [(HA & -> & HV)|[-> HQ]]]; (split; [exact HE'|]).
+        * left. split; [exact HA|]. apply STE. exact HV.
+        * right; split; [exact HQ|reflexivity].
       + destruct x2; [contradiction|]. apply ST, UI, HH.
   Qed.
+
+  Definition esc_pres (p : pres) : Prop :=
+    match p with PUrl u => EV (u_verrs u) | _ => True end.
 
   Definition PR (p1 p2 : pres) : Prop :=
     match p1 with
     | PUrl u1 => match p2 with PUrl u2 => UR u1 u2 | _ => False end
-    | PErr e1 => (exists u1, EP u1 e1) /\ (EANY \/ p2 = PErr e1)
+    | PErr e1 => (exists u1, EP u1 e1) /\ ((EANY /\ esc_pres p2) \/ p2 = PErr e1)
     | PNilNil => p2 = PNilNil
     | PPanic => p2 = PPanic
     | PFuel => p2 = PFuel
@@ -153,9 +253,14 @@ Section RunSim.
 
   Lemma to_pres_rel r1 r2 : RESR r1 r2 -> PR (to_pres r1) (to_pres r2).
   Proof.
-    destruct r1, r2; cbn; intros H; try contradiction; try discriminate; try exact H; try reflexivity;
-      try (destruct H as [HE [HA|[]]]; split; [eexists; exact HE|left; exact HA]).
-    destruct H as [HE [HA|[_ ->]]]; (split; [eexists; exact HE|]); [left; exact HA|right; reflexivity].
+    destruct r1; cbn; intros H.
+    - destruct r2; try contradiction; exact H.
+    - destruct H as [HE [[HA HS]|HX]]; (split; [eexists; exact HE|]).
+      + left. split; [exact HA|]. destruct r2; try exact I; exact HS.
+      + destruct r2; try contradiction. right. destruct HX as [_ ->]. reflexivity.
+    - destruct r2; try contradiction; reflexivity.
+    - subst r2; reflexivity.
+    - subst r2; reflexivity.
   Qed.
 
   Theorem Parse_rel i : VR [] [] -> PR (Parse idna c1 i) (Parse idna c2 i).
@@ -168,13 +273,23 @@ Section RunSim.
     cbn [option_map]. f_equal. exact HB.
   Qed.
 
-  Theorem ParseRef_rel raw ref : VR [] [] -> PR (ParseRef idna c1 raw ref) (ParseRef idna c2 raw ref).
+  (* ParseRef parses the reference against a clone of the parsed base, which forgets what the
+     base parse recorded: the escape clause needs EV to hold of every list *)
+  Theorem ParseRef_rel raw ref : VR [] [] -> (forall v, EV v) ->
+    PR (ParseRef idna c1 raw ref) (ParseRef idna c2 raw ref).
   Proof.
-    intros H. unfold ParseRef. destruct raw as [|x raw]; [apply Parse_rel, H|].
+    intros H HEV. unfold ParseRef. destruct raw as [|x raw]; [apply Parse_rel, H|].
     pose proof (Parse_rel (x :: raw) H) as HP.
-    destruct (Parse idna c1 (x :: raw)) as [b1|e1| | |], (Parse idna c2 (x :: raw)) as [b2|e2| | |];
-      cbn in HP; try contradiction; try discriminate; try exact HP;
-      try (destruct HP as [HE [HA|HX]]; [split; [exact HE|left; exact HA]|discriminate]).
-    apply UrlParse_rel; [exact H|apply HP].
+    destruct (Parse idna c1 (x :: raw)) as [b1|e1| | |].
+    - destruct (Parse idna c2 (x :: raw)) as [b2|e2| | |]; cbn in HP; try contradiction.
+      apply UrlParse_rel; [exact H|apply HP].
+    - destruct HP as [HE [[HA HS]|HX]]; (split; [exact HE|]).
+      + left. split; [exact HA|].
+        destruct (Parse idna c2 (x :: raw)); try exact I.
+        destruct (UrlParse idna c2 u ref); try exact I. apply HEV.
+      + right. rewrite HX. reflexivity.
+    - cbn in HP. rewrite HP. reflexivity.
+    - cbn in HP. rewrite HP. reflexivity.
+    - cbn in HP. rewrite HP. reflexivity.
   Qed.
 End RunSim.
